@@ -930,6 +930,10 @@ func runGGUF(t *testing.T, tape *verifsim.Tape, prop, tier string, keepLog bool)
 			if run.res.HarnessErr != "" {
 				return run.res
 			}
+			if p.kind == "retype" && resp != nil && resp.OK {
+				// Decode accepted the re-typed key (whatever the accessors then did)
+				run.res.Probes["retype_decoded"]++
+			}
 			if resp != nil && v == nil {
 				pr := p.kind + "_then_"
 				if resp.OK {
@@ -940,9 +944,6 @@ func runGGUF(t *testing.T, tape *verifsim.Tape, prop, tier string, keepLog bool)
 				run.res.Probes[pr]++
 				if resp.OK && resp.Stage == "done" {
 					run.res.Probes["accessors_on_faulty_model"]++
-				}
-				if p.kind == "retype" && resp.OK {
-					run.res.Probes["retype_decoded"]++
 				}
 				if p.kind == "rderr" && resp.ErrFired {
 					run.res.Probes["rderr_fired"]++
